@@ -361,6 +361,7 @@ type plan struct {
 	Crowd     *crowd    `json:"crowd,omitempty"`           // several long-lived players and visitors that leave by TEARDOWN
 	UDP       string    `json:"udp_track,omitempty"`       // RTSP/TCP only: "video" | "audio" = this track is set up over UDP (RTP/AVP;unicast;client_port=), the other one interleaved
 	UDPFirst  bool      `json:"udp_setup_first,omitempty"` // the UDP track is set up first (then the session ends as a TCP player); otherwise last (it ends as a UDP player)
+	LateJoin  int       `json:"wsp_late_join,omitempty"`   // WSP only: the data channel JOINs after PLAY, this many packets having been published in between
 }
 
 // udpLast: the last SETUP was the UDP one, so ipchub makes the session a UDP
@@ -569,6 +570,9 @@ func genPlan(t *rapid.T, transport string, alwaysBursty bool) *plan {
 		if k := rapid.IntRange(0, 11).Draw(t, "syncAfter"); k == 0 || (!bursty && k < 3) {
 			pl.Steps = append(pl.Steps, step{Kind: "sync"})
 		}
+	}
+	if transport == "wsp" {
+		pl.LateJoin = rapid.SampledFrom([]int{0, 0, 0, 2, 7, 40}).Draw(t, "lateJoin")
 	}
 	m := pl.mapped()
 	nw := rapid.IntRange(1, 3).Draw(t, "windows")
@@ -859,6 +863,18 @@ type pubRec struct {
 func (e *env) publish(sp pktSpec, must bool) []byte {
 	e.nextID++
 	return e.emit(sp, buildPacket(sp, e.nextID), must)
+}
+
+// publishLoose publishes a packet that may or may not reach the client (it is
+// published while the client is not able to receive yet): it is known to the
+// judge, never required, and not part of the delivery accounting.
+func (e *env) publishLoose(sp pktSpec) {
+	e.nextID++
+	p := buildPacket(sp, e.nextID)
+	orig := append([]byte(nil), p.Data...)
+	e.exp.published(e.pl.wire(sp.Ch), orig, false)
+	e.pubs = append(e.pubs, pubRec{p, orig})
+	e.st.WriteRtpPacket(p)
 }
 
 func (e *env) emit(sp pktSpec, p *rtp.Packet, must bool) []byte {
